@@ -2,7 +2,6 @@ package mobius
 
 import (
 	"io"
-	"sync"
 
 	"github.com/jhalter/mobius/hotline"
 )
@@ -93,18 +92,6 @@ func VH_C19_PostsKeptNewestFirst_sym() {
 		r.step(f)
 	}
 	vAssertEqBytes("reader_after_posts", r.got, want)
-}
-
-// Engine-only replacement of sync.Mutex.Lock: before the lock is granted another client may complete a whole
-// operation. The hook (set by a harness, cleared when it fires) plays that other client.
-var vLockHook func()
-
-func vStub_sync_Mutex_Lock(m *sync.Mutex) {
-	if vLockHook != nil {
-		h := vLockHook
-		vLockHook = nil
-		h()
-	}
 }
 
 // Two posts made at the same time are both kept: whatever another poster completes just before this post obtains
